@@ -20,8 +20,25 @@ timeout 3000 cargo test --offline -p $crate $SEED_FEATURES $demo_args 2>&1 | gre
 r2=${PIPESTATUS[0]}
 echo "== (3) existing tests of $crate WITH the change (demo removed)"
 git apply -R $out/demo.diff
-timeout 3000 cargo test --offline -p $crate $SEED_FEATURES 2>&1 | grep -E "^test result|FAILED|error(\[|:)" | tail -12
-r3=${PIPESTATUS[0]}
+timeout 3000 cargo test --offline -p $crate $SEED_FEATURES --no-fail-fast > /tmp/seed/v-$id-step3.log 2>&1
+r3=$?
+grep -E "^test result|FAILED|error(\[|:)" /tmp/seed/v-$id-step3.log | tail -12
+if [ $r3 -ne 0 ]; then
+  # timing-based tests of several crates are flaky on a loaded machine: a test that passes in one of 3 isolated
+  # re-runs WITH the change is not broken by the change
+  failed=$(grep -E "^test .* \.\.\. FAILED$" /tmp/seed/v-$id-step3.log | sed -E 's/^test (.*) \.\.\. FAILED$/\1/' | sort -u)
+  r3=0
+  for t in $failed; do
+    okone=1
+    for k in 1 2 3; do
+      if timeout 1500 cargo test --offline -p $crate $SEED_FEATURES "$t" -- --exact >/dev/null 2>&1 || timeout 1500 cargo test --offline -p $crate $SEED_FEATURES --lib "$t" >/dev/null 2>&1; then okone=0; break; fi
+    done
+    echo "   re-run of $t in isolation: $([ $okone = 0 ] && echo passes '(flaky under load)' || echo STILL FAILS)"
+    [ $okone = 0 ] || r3=101
+  done
+  [ -z "$failed" ] && r3=101
+fi
+rm -f /tmp/seed/v-$id-step3.log
 echo "rc: demo-without=$r1 demo-with=$r2 existing-with=$r3   (want 0, non-0, 0)"
 cd /verif
 git -C /repo worktree remove --force $wt
